@@ -6,12 +6,14 @@ package main
 
 import (
 	"bufio"
+	"crypto/sha256"
 	"encoding/hex"
 	"encoding/json"
 	"flag"
 	"fmt"
 	"os"
 	"path/filepath"
+	"strings"
 	"sync"
 	"time"
 
@@ -22,6 +24,7 @@ import (
 	"github.com/bbva/qed/api/mgmthttp"
 	"github.com/bbva/qed/balloon"
 	"github.com/bbva/qed/protocol"
+	"github.com/bbva/qed/storage"
 
 	"verif/harness/gate"
 	"verif/harness/qcluster"
@@ -48,6 +51,8 @@ func nodeDriver(args []string) error {
 	dir := fs.String("dir", "", "node directory")
 	id := fs.Int("id", 1, "node id")
 	sha := fs.Bool("sha", false, "use the production hasher")
+	seeds := fs.String("seeds", "", "comma separated raft addresses of a cluster to join (empty: bootstrap a new one)")
+	addr := fs.String("addr", "", "raft address to listen on (default: a free port)")
 	fs.Parse(args)
 	if !*sha {
 		qcluster.UseSymbolicHasher()
@@ -62,7 +67,7 @@ func nodeDriver(args []string) error {
 		w.Flush()
 		mu.Unlock()
 	}
-	n := &qcluster.Node{ID: *id, Dir: *dir}
+	n := &qcluster.Node{ID: *id, Dir: *dir, Addr: *addr}
 	hook := func(g *gate.Store) {
 		g.OnBefore = func(mi *gate.MutateInfo) {
 			leaves := []string{}
@@ -86,10 +91,21 @@ func nodeDriver(args []string) error {
 		}
 	}
 	_, statErr := os.Stat(filepath.Join(*dir, "raft"))
-	err := n.Start(qcluster.Opts{Bootstrap: os.IsNotExist(statErr), Hook: hook, Timeout: 300 * time.Millisecond})
+	var seedList []string
+	if *seeds != "" {
+		seedList = strings.Split(*seeds, ",")
+	}
+	fresh := os.IsNotExist(statErr)
+	err := n.Start(qcluster.Opts{Bootstrap: fresh && len(seedList) == 0, Seeds: seedList, Hook: hook, Timeout: 300 * time.Millisecond})
 	if err != nil {
 		out(map[string]interface{}{"r": "start", "err": true, "errmsg": err.Error()})
 		return nil
+	}
+	if *seeds != "" || os.Getenv("VERIF_CLUSTER_MEMBER") != "" {
+		// member of a multi-process cluster: it need not be the leader
+		idx, bver := n.Raft.VerifFSMState()
+		out(map[string]interface{}{"r": "start", "err": false, "idx": idx, "bver": bver, "version": n.Raft.VerifBalloonVersion(), "addr": n.Addr})
+		goto serve
 	}
 	if !qcluster.WaitFor(20*time.Second, n.Raft.IsLeader) {
 		out(map[string]interface{}{"r": "start", "err": true, "errmsg": "not leader"})
@@ -103,9 +119,11 @@ func nodeDriver(args []string) error {
 		}
 		time.Sleep(100 * time.Millisecond)
 	}
-	idx, bver := n.Raft.VerifFSMState()
-	out(map[string]interface{}{"r": "start", "err": false, "idx": idx, "bver": bver, "version": n.Raft.VerifBalloonVersion()})
-
+	{
+		idx, bver := n.Raft.VerifFSMState()
+		out(map[string]interface{}{"r": "start", "err": false, "idx": idx, "bver": bver, "version": n.Raft.VerifBalloonVersion(), "addr": n.Addr})
+	}
+serve:
 	sc := bufio.NewScanner(os.Stdin)
 	sc.Buffer(make([]byte, 1<<20), 1<<26)
 	for sc.Scan() {
@@ -175,7 +193,34 @@ func nodeDriver(args []string) error {
 			out(map[string]interface{}{"r": "serve", "api": apiL.Addr().String(), "mgmt": mgmtL.Addr().String()})
 		case "state":
 			idx, bver := n.Raft.VerifFSMState()
-			out(map[string]interface{}{"r": "state", "idx": idx, "bver": bver, "version": n.Raft.VerifBalloonVersion()})
+			out(map[string]interface{}{"r": "state", "idx": idx, "bver": bver, "version": n.Raft.VerifBalloonVersion(), "leader": n.Raft.IsLeader(),
+				"members": len(n.Raft.ClusterInfo().Nodes)})
+		case "dump":
+			hs := sha256.New()
+			counts := map[string]int{}
+			for _, t := range []storage.Table{storage.HyperTable, storage.HyperCacheTable, storage.HistoryTable, storage.FSMStateTable} {
+				rd := n.Gate.GetAll(t)
+				for {
+					buf := make([]*storage.KVPair, 256)
+					k, err := rd.Read(buf)
+					if k == 0 || err != nil {
+						break
+					}
+					for i := 0; i < k; i++ {
+						hs.Write([]byte{byte(t)})
+						hs.Write(buf[i].Key)
+						hs.Write([]byte{0xff})
+						hs.Write(buf[i].Value)
+						counts[t.String()]++
+					}
+				}
+				rd.Close()
+			}
+			idx, bver := n.Raft.VerifFSMState()
+			out(map[string]interface{}{"r": "dump", "idx": idx, "bver": bver, "version": n.Raft.VerifBalloonVersion(), "digest": hex.EncodeToString(hs.Sum(nil)), "counts": counts})
+		case "transfer":
+			err := n.Raft.VerifLeadershipTransfer()
+			out(map[string]interface{}{"r": "transfer", "err": err != nil})
 		case "snapshot":
 			err := n.Raft.VerifForceSnapshot()
 			out(map[string]interface{}{"r": "snapshot", "err": err != nil})
